@@ -150,8 +150,21 @@ fn filename_comparator(file1: &PathBuf, file2: &PathBuf) -> Ordering {
         return date_str1.cmp(date_str2);
     }
 
-    // same date, compare the file number
-    name1.cmp(name2)
+    // same date, compare the file number (numerically: ".10" comes after ".9";
+    // the first file of a day has no number)
+    let number_of = |a: &Vec<&str>, date_idx: usize| -> u64 {
+        a.get(date_idx + 1)
+            .and_then(|n| n.parse::<u64>().ok())
+            .unwrap_or(0)
+    };
+    let date_idx = if a1[2].starts_with(FILE_PID_PREFIX) {
+        3
+    } else {
+        2
+    };
+    number_of(&a1, date_idx)
+        .cmp(&number_of(&a2, date_idx))
+        .then_with(|| name1.cmp(name2))
 }
 
 #[cfg(test)]
